@@ -47,6 +47,30 @@ def pred_n28(case, record, expected_text):
     return crash == 8 and "Unknown expression type: *ast.PrivateIdentifier" in obs and bool(N28_RE.search(src_of(case)))
 
 
+# C01-N29: \\u{10FFFF} (leading zeros allowed) anywhere in the source (also inside an eval'd / Function string)
+N29_RE = re.compile(r"\\+u\{0*10FFFF\}", re.I)
+
+
+def pred_n29(case, record, expected_text):
+    obs = record.get("obs", "")
+    m = re.match(r"crash=(\d+)", obs)
+    crash = int(m.group(1)) if m else 0
+    return crash == 2 and "unexpected unicode length while parsing" in obs and bool(N29_RE.search(src_of(case)))
+
+
+# C01-N30: a user-defined [Symbol.iterator] / [Symbol.asyncIterator] method (whose result has no callable next)
+N30_RE = re.compile(r"\[Symbol\.(?:async)?[iI]terator\]")
+
+
+def pred_n30(case, record, expected_text):
+    obs = record.get("obs", "")
+    m = re.match(r"crash=(\d+)", obs)
+    crash = int(m.group(1)) if m else 0
+    src = src_of(case)
+    return (crash == 1 and "nil pointer dereference" in obs and bool(N30_RE.search(src))
+            and not (N26_RE.search(src) or N26_RE2.search(src)))
+
+
 def candidates(case):
     """source-level shrinking: drop a line, then drop a top-level ;-separated chunk"""
     src = src_of(case)
@@ -167,7 +191,9 @@ CFG = {
     ],
     "predicates": {"C01.continue_in_finally_of_labelled_block_inside_loop": pred_n26,
                    "C01.private_identifier_as_object_literal_key": pred_n27,
-                   "C01.private_in_as_left_operand_of_logical_operator": pred_n28},
+                   "C01.private_in_as_left_operand_of_logical_operator": pred_n28,
+                   "C01.escape_of_the_maximum_code_point": pred_n29,
+                   "C01.iterator_without_callable_next": pred_n30},
     "manifest": {
         "text": ("translation validation, partial: a bytecode verifier (work-list abstract interpretation of operand-stack height, stack "
                  "locals, variadic markers and the try stack) is proved sound in Rocq against a small-step model of the VM's stack "
